@@ -320,7 +320,7 @@ def scenario(ctx):
 	# unwinds - every boundary), SIGTERM (default disposition kills at once - a drawn subset of boundaries)
 	out_i = []
 	term_points = sorted({ch.int(0, max(0, B - 1), f'term{j}') for j in range(min(4, B))}) if B else []
-	for how, points in (('h5int', list(range(B))), ('h5term', term_points)):
+	for how, points in (('h5term', term_points), ('h5int', list(range(B)))):
 		for i in points:
 			_restore(path, old_bytes)
 			r = crash.run_forked(fn, args, (how, i), path)
